@@ -1,7 +1,11 @@
 import ServlinVerif.Props.C06
 import ServlinVerif.Props.C05
+import ServlinVerif.Props.C06Chunked
+import ServlinVerif.Props.C07Prefix
 open Servlin.C06
 #print axioms C08_prefix
 #print axioms C08_source_fault
 #print axioms Servlin.C05.C08_conn
 #print axioms Servlin.C05.C05_nothing_after_shutdown
+#print axioms Servlin.C06.C08_failed_stream_incomplete
+#print axioms Servlin.C07.C07_no_false_complete
